@@ -20,6 +20,7 @@ class C08(Harness):
         "update-and-cutoff-delegate",
         "no-refit-raises-NotFittedError",
         "candidates-enumerated",
+        "evaluation-strategy-honoured",
     )
     stubs = (
         "base forecaster := recording member stub (forecast = uninterpreted function of (parameter, cutoff, label)), also inside a TransformedTargetForecaster / MultiplexForecaster for nested parameter names",
@@ -27,7 +28,7 @@ class C08(Harness):
         "joblib.Parallel := sequential; sklearn ParameterGrid / ParameterSampler / clone / set_params := the real scikit-learn code",
     )
     assumptions = ("expanding-window CV with start_with_window=True", "ties between candidate means: any optimal candidate is accepted")
-    outside = ("more than 3 candidates / 3 folds", "strategy='update' inside the tuner (covered for evaluate in C07)")
+    outside = ("more than 3 candidates / 3 folds",)
 
     def bounds(self, tier):
         q = tier == "quick"
@@ -39,6 +40,8 @@ class C08(Harness):
             for base in ("plain", "pipeline", "multiplexer", "randomized", "listgrid"):
                 for refit in (True, False):
                     out.append({"name": "%s-%s-%s" % (base, "gib" if gib else "loss", "refit" if refit else "norefit"), "kind": base, "gib": gib, "refit": refit, "cost": 2})
+            for base in ("plain", "randomized"):  # the evaluation strategy given to the tuner reaches evaluate()
+                out.append({"name": "%s-%s-refit-update-strategy" % (base, "gib" if gib else "loss"), "kind": base, "gib": gib, "refit": True, "strategy": "update", "cost": 2})
         return out
 
     def inputs(self, ctx, cell):
@@ -96,9 +99,9 @@ class C08(Harness):
             base, grid = Member(p=0), {"p": ps}
             cand_p = None
         if kind == "randomized":
-            gs = tune.ForecastingRandomizedSearchCV(base, cv, grid, n_iter=nc, scoring=sc, refit=cell["refit"], random_state=3)
+            gs = tune.ForecastingRandomizedSearchCV(base, cv, grid, n_iter=nc, scoring=sc, refit=cell["refit"], random_state=3, strategy=cell.get("strategy", "refit"))
         else:
-            gs = tune.ForecastingGridSearchCV(base, cv, grid, scoring=sc, refit=cell["refit"])
+            gs = tune.ForecastingGridSearchCV(base, cv, grid, scoring=sc, refit=cell["refit"], strategy=cell.get("strategy", "refit"))
         fh = np.array([1])
         gs.fit(y, fh=fh)
         res = gs.cv_results_
@@ -108,7 +111,7 @@ class C08(Harness):
         out["best_score"] = S(gs.best_score_)
         out["best_params"] = {k: S(v) for k, v in dict(gs.best_params_).items()}
         out["splits"] = [[L(a), L(b)] for a, b in cv.split(y)]
-        out["fitlog"] = [e for e in log if e["op"] == "fit"]
+        out["fitlog"] = [e for e in log if e["op"] in ("fit", "update")]
         del log[:]
         nb = len(inp["u"])
         yb = pd.Series(inp["u"], index=pd.RangeIndex(s0 + n, s0 + n + nb)) if nb else None
@@ -179,7 +182,9 @@ class C08(Harness):
                 tot = tot + W.uf("score_%d" % len(a), a, "r" * len(a) + ">r")
                 if len(fitlog) == expected_fits:
                     e = fitlog[j * nfold + f_i]
+                    want_op = "update" if (cell.get("strategy") == "update" and f_i > 0) else "fit"
                     P.check("same-splits-for-every-candidate", e["who"] == p and len(e["idx"]) == len(tr))
+                    P.check("evaluation-strategy-honoured", e["op"] == want_op, {"fold": f_i, "op": e["op"], "strategy": cell.get("strategy", "refit")})
                     if kind == "listgrid":  # every candidate = the base forecaster plus exactly its own parameters
                         P.check("row-equals-independent-evaluate", e["q"] == d.get("q", 0), {"candidate": j, "q_seen": e["q"]})
                     for lab, q, v in zip(e["idx"], tr, e["vals"]):
